@@ -310,20 +310,27 @@ pub fn gen_scenario(tape: &mut Tape) -> Scenario {
     }
 }
 
-const WRITE_KINDS: [WriteFaultKind; 5] = [
+const WRITE_KINDS: [WriteFaultKind; 9] = [
     WriteFaultKind::Hard(ErrorKind::BrokenPipe),
     WriteFaultKind::Zero,
     WriteFaultKind::Hard(ErrorKind::StorageFull),
     WriteFaultKind::Hard(ErrorKind::WouldBlock),
     WriteFaultKind::Hard(ErrorKind::Other),
+    WriteFaultKind::Hard(ErrorKind::TimedOut),
+    WriteFaultKind::Hard(ErrorKind::ConnectionReset),
+    WriteFaultKind::Hard(ErrorKind::WriteZero),
+    WriteFaultKind::Hard(ErrorKind::PermissionDenied),
 ];
-const READ_KINDS: [ReadFaultKind; 6] = [
-    ReadFaultKind::Hard(ErrorKind::Other),
-    ReadFaultKind::Eof,
-    ReadFaultKind::Hard(ErrorKind::ConnectionReset),
-    ReadFaultKind::Hard(ErrorKind::WouldBlock),
-    ReadFaultKind::Hard(ErrorKind::UnexpectedEof),
-    ReadFaultKind::Hard(ErrorKind::InvalidData),
+const READ_HARD_KINDS: [ErrorKind; 9] = [
+    ErrorKind::Other,
+    ErrorKind::ConnectionReset,
+    ErrorKind::WouldBlock,
+    ErrorKind::UnexpectedEof,
+    ErrorKind::InvalidData,
+    ErrorKind::TimedOut,
+    ErrorKind::BrokenPipe,
+    ErrorKind::PermissionDenied,
+    ErrorKind::OutOfMemory,
 ];
 
 fn noisy(tape: &mut Tape) -> Schedule {
@@ -615,7 +622,7 @@ impl Property for C08 {
         // those with a line longer than the 8 KiB read buffer, which are
         // sampled: 1500 positions incl. all line/say boundaries)
         let cap = if thorough { 1500 } else { 48 };
-        let kinds_per_pos = if thorough { WRITE_KINDS.len() } else { 1 };
+        let kinds_per_pos = if thorough { 4 } else { 1 };
         // writer: every byte offset of the expected output
         let say_bounds: Vec<usize> = full
             .says
@@ -627,7 +634,7 @@ impl Property for C08 {
         let noisy_w = noisy(tape);
         for (n, p) in wpos.iter().enumerate() {
             for k in 0..kinds_per_pos {
-                let kind = WRITE_KINDS[(k0 + n + k) % WRITE_KINDS.len()];
+                let kind = WRITE_KINDS[(k0 + n + 2 * k) % WRITE_KINDS.len()];
                 let mut s = Schedule::plain();
                 s.write_fault = Some((*p, kind));
                 go!(s);
@@ -646,32 +653,27 @@ impl Property for C08 {
             }
         }
         let rpos = sample_positions(tape, sc.input.len() + 1, cap, &line_bounds);
-        let r0 = tape.draw(READ_KINDS.len() as u32) as usize;
+        let r0 = tape.draw(READ_HARD_KINDS.len() as u32) as usize;
         let noisy_r = noisy(tape);
-        let rkinds = if thorough { 3 } else { 1 };
+        let hard_per_pos = if thorough { 3 } else { 1 };
         for (n, p) in rpos.iter().enumerate() {
-            for k in 0..rkinds {
-                // rotate kinds, but make sure both a hard error and a
-                // premature EOF are exercised at every position
-                let kind = if k == 0 {
-                    READ_KINDS[(r0 + n) % 2]
-                } else {
-                    READ_KINDS[(r0 + n + k + 1) % READ_KINDS.len()]
-                };
+            // at every position: hard errors (kinds rotate over positions) and
+            // a premature end of input, under plain delivery
+            let mut kinds: Vec<ReadFaultKind> = (0..hard_per_pos)
+                .map(|k| ReadFaultKind::Hard(READ_HARD_KINDS[(r0 + n + 4 * k) % READ_HARD_KINDS.len()]))
+                .collect();
+            kinds.push(ReadFaultKind::Eof);
+            for (k, kind) in kinds.iter().enumerate() {
                 let mut s = Schedule::plain();
-                s.read_fault = Some((ReadFaultAt::Byte(*p), kind));
+                s.read_fault = Some((ReadFaultAt::Byte(*p), *kind));
                 go!(s);
-                let mut s = noisy_r.clone();
-                s.seed = s.seed.wrapping_add(n as u64);
-                s.read_fault = Some((ReadFaultAt::Byte(*p), kind));
-                go!(s);
-            }
-            if !thorough {
-                // the other of {hard, eof} under plain delivery
-                let kind = READ_KINDS[(r0 + n + 1) % 2];
-                let mut s = Schedule::plain();
-                s.read_fault = Some((ReadFaultAt::Byte(*p), kind));
-                go!(s);
+                // and after benign noise (thorough: every kind; quick: one)
+                if thorough || k == n % kinds.len() {
+                    let mut s = noisy_r.clone();
+                    s.seed = s.seed.wrapping_add(n as u64);
+                    s.read_fault = Some((ReadFaultAt::Byte(*p), *kind));
+                    go!(s);
+                }
             }
         }
         // reader: every read call index under byte-wise and line-wise delivery
@@ -684,7 +686,7 @@ impl Property for C08 {
                 s.seed = 11 + n as u64;
                 s.read_fault = Some((
                     ReadFaultAt::Call(*c),
-                    ReadFaultKind::Hard(ErrorKind::Other),
+                    ReadFaultKind::Hard(READ_HARD_KINDS[(r0 + n) % READ_HARD_KINDS.len()]),
                 ));
                 go!(s);
             }
@@ -754,6 +756,31 @@ impl Property for C08 {
                         if o.stdout_fault_fired {
                             stats.inc(&format!("fault.fired.{}", name));
                         }
+                        if let Some((rule, detail, render)) = o.violation {
+                            res.violation = Some(Violation {
+                                rule: rule.to_string(),
+                                detail,
+                                render,
+                                log_hash: hash_combine(key, hash_bytes(rule.as_bytes())),
+                                tags: vec!["process-arm".into()],
+                            });
+                            res.histories = hist.into_iter().collect();
+                            return res;
+                        }
+                    }
+                }
+            }
+            if !full.listen_marks.is_empty() {
+                stats.inc("fault.configured.process.stdin_unreadable");
+                match crate::c08proc::run_unreadable_stdin(&sc, &full, &scratch) {
+                    Err(e) => {
+                        eprintln!("HARNESS ERROR (process arm): {}", e);
+                        std::process::exit(2);
+                    }
+                    Ok(o) => {
+                        res.executions += o.spawns;
+                        res.steps += o.spawns;
+                        stats.inc("fault.fired.process.stdin_unreadable");
                         if let Some((rule, detail, render)) = o.violation {
                             res.violation = Some(Violation {
                                 rule: rule.to_string(),
